@@ -35,6 +35,7 @@ type JobRun struct {
 	toTransform   [][]string
 	crashDirs     []string
 	lastRunFailed bool
+	failNextCommit bool
 	recMu         sync.Mutex     // transform workers report concurrently
 	consumed      map[string]int // job id -> number of source feed entries delivered by successful incremental runs
 }
@@ -84,6 +85,10 @@ func (r *JobRun) installFaults(jobID string, spec map[string]any) {
 		switch name {
 		case "sink.dataset":
 			r.seenSink++
+			if k := intOf(spec, "sinkStoreFailAt"); k > 0 && r.seenSink == k {
+				// let the sink's own StoreEntities fail at its data commit
+				r.failNextCommit = true
+			}
 			if k := intOf(spec, "sinkFailAt"); k > 0 && r.seenSink == k {
 				r.Stats["fault_sink_error"]++
 				return errSinkInjected
@@ -101,6 +106,16 @@ func (r *JobRun) installFaults(jobID string, spec map[string]any) {
 			r.delivered = append(r.delivered, entIDs(r.H, subject))
 		case "transform.batch":
 			r.toTransform = append(r.toTransform, entIDs(r.H, subject))
+		}
+		return nil
+	}
+	hooks.onFault = func(owner any, name string, hit int64) error {
+		r.recMu.Lock()
+		defer r.recMu.Unlock()
+		if r.failNextCommit && name == "StoreEntities.dataCommit" {
+			r.failNextCommit = false
+			r.Stats["fault_sink_store_error"]++
+			return errSinkInjected
 		}
 		return nil
 	}
@@ -124,6 +139,8 @@ func (r *JobRun) installFaults(jobID string, spec map[string]any) {
 }
 
 func (r *JobRun) clearFaults() {
+	hooks.onFault = nil
+	r.failNextCommit = false
 	hooks.onFaultOn = nil
 	hooks.onPoint = nil
 }
